@@ -35,6 +35,10 @@ func propC03(c *Ctx) {
 	// a duplicate ENUM declared inside macro bodies must reach the duplicate check: the rules of every pasted body
 	// are collected, unconditionally
 	c.ruleC10RulesWithBody()
+	// a second Query / Body / Request pasted from the same macro stands at the coordinates of the first: a duplicate
+	// test that asks "same place?" before it refuses lets the copy through
+	c.ruleC10CopyIdentity()
+	c.ruleEmptySentinel("C03-EMPTY-SENTINEL")
 	// a check that walks a list must look at every element, and its verdict on one element must not be the verdict
 	// on another
 	c.ruleLoopsCoverAll("C03-LOOPS-COVER-ALL")
